@@ -198,7 +198,11 @@ class Built:
 
     def n_derived(self, n):
         base = self.ds[n["base"]]
-        return getattr(base, n["op"])(copy.deepcopy(n["opts"]))
+        derived = getattr(base, n["op"])(copy.deepcopy(n["opts"]))
+        # derived datasets carry no name of their own; give them their parent's so that log messages
+        # (the only handle a LogRequest offers) identify the dataset
+        derived.__qualname__ = base.__qualname__
+        return derived
 
     def n_apply(self, n):
         src = self.node(n["src"])
@@ -346,3 +350,29 @@ def run(op, *args):
         return Outcome(False, fail=classify(e), exc=e)
     except Exception as e:  # raw exception escaping labrea
         return Outcome(False, fail=classify(e), exc=e, raw=True)
+
+
+# ---- observation helpers (public runtime API only) ---------------------------------------------------
+import re as _re
+
+_DS_NAME = _re.compile(r"^Labrea: Evaluating <(?:Abstract)?Dataset ([A-Za-z0-9_.<>]+)>")
+_FA_NAME = _re.compile(r"FunctionApplication\((\w+),")
+
+
+def log_capture(built):
+    """A runtime (context manager) whose LogRequest handler records ('log', dataset name, level) in the
+    build's execution log instead of emitting."""
+    from labrea import runtime
+    from labrea.logging import LogRequest
+
+    def handler(request):
+        m = _DS_NAME.search(request.msg)
+        if m:
+            name = m.group(1).split(".")[-1]
+        else:
+            # datasets derived with with_options()/with_default_options() carry no name: their repr spells
+            # out the overloads; the default implementation names the dataset
+            name = "?"
+        built.log.append(("log", name, request.level))
+
+    return runtime.handle(LogRequest, handler)
